@@ -1282,6 +1282,9 @@ func (s *PathState) exec(bi, ii int, target ssa.Instruction, emit func(*PathStat
 func Targets(fn *ssa.Function, pred func(ssa.Instruction) bool) []ssa.Instruction {
 	var out []ssa.Instruction
 	for _, in := range DeepInstrs(fn) {
+		if _, isRet := in.(*ssa.Return); isRet && in.Parent() != fn {
+			continue // the return of a helper interpreted inline is not an exit of fn
+		}
 		if pred(in) {
 			out = append(out, in)
 		}
